@@ -30,7 +30,7 @@ type Options struct {
 }
 
 func DefaultOptions() Options {
-	return Options{Workers: 16, MaxSteps: 20_000_000, MaxPaths: 2_000_000, Timeout: 30 * time.Minute, SolverTimeout: 60000, Solver: "z3"}
+	return Options{Workers: 16, MaxSteps: 20_000_000, MaxPaths: 2_000_000, Timeout: 45 * time.Minute, SolverTimeout: 60000, Solver: "z3"}
 }
 
 // Violation is a failed assertion / unexpected panic with a witness.
